@@ -169,6 +169,8 @@ type run struct {
 	replies   map[int]replyInfo
 	promReg   *prometheus.Registry
 	notes     []string
+	forceLA   int
+	noRetire  int
 	curDst    int // destination token named by the datagram of the current step
 	closeL    func() error
 	floodEmit int64
@@ -331,16 +333,23 @@ func (r *run) emitM(evs []mEvent, did, sid int) {
 				if r.liveOf[ai.client] == e.A {
 					delete(r.liveOf, ai.client)
 				}
-				for addr, own := range r.sockOwn {
-					if own == e.A {
-						delete(r.sockOwn, addr)
-						delete(r.sockTok, addr)
-					}
+				if r.noRetire != e.A { // (teardown-window scenario: the socket stays in use until the teardown is released)
+					r.retire(e.A)
 				}
 			}
 		}
 		if i < 300 {
 			r.tr.Emit(line)
+		}
+	}
+}
+
+// retire: the source port of a removed association may be handed out again by the kernel
+func (r *run) retire(a int) {
+	for addr, own := range r.sockOwn {
+		if own == a {
+			delete(r.sockOwn, addr)
+			delete(r.sockTok, addr)
 		}
 	}
 }
